@@ -30,6 +30,11 @@ CHECKS = {
    text="Runtime monitoring: 96 (thorough 960) 'fullspec' projects, every second one carrying an edit that makes a valid document impossible or borderline (@Path without {name}, duplicate (name,in), undeclared schemes, missing leading slash, string enums that look like numbers/booleans, same wire name in two locations); whatever file exists at the configured output path after the run is checked for $ref closure, template<->path-parameter bijection, unique (name,in), response descriptions, enum value JSON types and openapi/info/servers/securitySchemes vs the configuration. The oracle deliberately does not use kin-openapi/libopenapi (gleece's own validators). Exploration only.",
    note="Two known findings (typed enum values, both pinned by e2e assets) are listed in known_findings.json with cause-attested signatures.",
    ref="DESIGN.md §5 C08"),
+ "C10": dict(
+   technique="perturbation monitor with verdict-by-construction: well-formed generated projects plus one descriptor edit tagged with the rule it breaks; real in-process Validate() diagnostics, CLI exit status and before/after file snapshots are judged against the tag",
+   text="Runtime monitoring on 132 (thorough 1320) cases: 33 operators (P1-P16 each break one rule the statement names; P17-P21 blocking-half/warning cases; P0, P3, PC1-PC4 positive controls) applied to a dedicated Target method embedded at a random position of a random multi-controller project rendered at random vertical offsets. Soundness (ill-linked => error diagnostic), completeness (well-formed => no rejection) and blocking (error diagnostic => exit!=0 and nothing created below dist/) are judged separately. Exploration over the operator catalogue x generated contexts.",
+   note="The operator catalogue (DESIGN Appendix H) is the ground truth; rejections through a hard error rather than a diagnostic are counted, not judged.",
+   ref="DESIGN.md §5 C10, Appendix H"),
  "C11": dict(
    technique="differential monitor: the 3.0.0 and 3.1.0 documents of one project normalised to a neutral structure (DESIGN A.7) and deep-compared with a path-addressed diff",
    text="Runtime monitoring of the real CLI on 80 (thorough 800) projects x 2 versions with validators drawn from every rule either converter understands (22 rule names, applicable to the target type or not) on fields, parameters, bodies and form fields, plus security/deprecation combinations; paths, verbs, operationIds, tags, parameters, bodies, response codes, $ref targets, security and component schemas incl. numeric/length bounds and enum sets are compared after dialect translation. Exploration only.",
